@@ -96,7 +96,6 @@ CONST_TOKENS = [
     Tokens.ARRAY_CONDITION_SEP,
     Tokens.ELEMENT_OF,
     Tokens.KW_SEPARATOR,
-    Tokens.INSTANT,
 ]
 
 ALPHA_TOKENS = set(t for t in CONST_TOKENS if t.isalpha())
